@@ -132,6 +132,18 @@ def build_unit(pid, unit, sdir):
         dst = os.path.join(repo, ex["dst"])
         os.makedirs(os.path.dirname(dst), exist_ok=True)
         shutil.copy(os.path.join(hdir, ex["src"]), dst)
+    for ts in unit.get("textsubs", []):
+        # {"file": "<path in the tree>", "subs": [[from, to], ...]}: literal replacements in the scratch
+        # copy (a seam the harness needs inside an existing file); a file or text that is not there is
+        # left alone -- the harness finds out whether its seam is live
+        fp = os.path.join(repo, ts["file"])
+        if os.path.isfile(fp):
+            with open(fp) as f:
+                txt = f.read()
+            for a, b in ts["subs"]:
+                txt = txt.replace(a, b)
+            with open(fp, "w") as f:
+                f.write(txt)
     mods = [moddir] + [os.path.normpath(os.path.join(repo, m)) for m in unit.get("mods", [])]
     for m in mods:
         mod_edit(m)
@@ -501,9 +513,10 @@ def aggregate(pid, tier, spec, results, sdir, t0, t_build):
     if engine_err:
         for jr in engine_err:
             log("ENGINE-ERROR in %s/%s:\n%s" % (jr["unit"], jr["job"], jr["tail"][-3000:]))
-        return 3
     if new:
-        return 1
+        return 1  # a violation with its replay file stands, whatever else went wrong in another job
+    if engine_err:
+        return 3
     if harness_fail:
         for jr in harness_fail:
             log("HARNESS-FAILURE in %s/%s (rc=%s):\n%s" % (jr["unit"], jr["job"], jr["rc"], jr["tail"][-4000:]))
